@@ -7,8 +7,11 @@ import (
 
 	"pgregory.net/rapid"
 
+	"github.com/skycoin/skycoin/src/coin"
+
 	"verif/harness/internal/ev"
 	"verif/harness/internal/hx"
+	"verif/harness/internal/ref/rules"
 )
 
 const ruleLedger = "rapid state machine over 1 publisher node (arbitrating) and 1-2 follower nodes (real visor.Visor on real bolt files) with 7 key pairs, genesis volume in {1e9, 1e14, 2^63, 2^64-1000, 2^64-1}, generated verification parameters and block size limits; actions: build a spend from a node's unspent set (1-3 inputs, 1-4 outputs, amounts at 3-decimal precision, hours at the burn boundary) in one of 25 classes (valid, 5 soft-invalid, 13 hard-invalid incl. unknown/spent/duplicate input, coin creation/destruction by 1, hour creation by 1, wrong signer, bad inner hash/length, output-hour overflow), inject it (foreign or user, also re-injection) into any node, publisher assembles a block at head+{1,10,3600,1e6,2^40}, deliver published blocks in order / duplicated / skipping, craft and sign a next block for any node with one of 19 header mutations or 8 body mutations (double spend in block, spend of an output created in the block, spend of a spent output, invalid transaction, duplicate, reorder, dropped, empty), refresh, remove-invalid, restart; after every action the touched node's chain, stored headers+signatures, full unspent set, coin sum, metadata and pool (incl. validity flags) are compared with the reference model, and accept/reject of every injection and block must equal the model's prediction; "
@@ -39,6 +42,7 @@ func runHistory(t *rapid.T, f focus) *world {
 	add("restart", w.actRestart)
 	if f.weights["views"] > 0 {
 		add("views", w.actViews)
+		add("rebuild", w.actRebuild)
 	}
 	t.Repeat(acts)
 	w.checkAll(t, "end of history")
@@ -122,4 +126,50 @@ func TestC06_UnconfirmedPool(t *testing.T) {
 	ledgerTest(t, focus{prop: "C06", weights: weights(map[string]int{"inject": 10, "refresh": 3, "remove_invalid": 3}),
 		nt:     func(w *world) bool { return w.stats["pool_validity_changed"]+w.stats["removed_invalid"] >= 1 },
 		ntRule: "a pooled transaction changed its validity class (flag flipped on refresh, or removed as hard-invalid)"}, 40, 1500)
+}
+
+func TestC07_Views(t *testing.T) {
+	ledgerTest(t, focus{prop: "C07", weights: weights(map[string]int{"views": 4, "rebuild": 2, "inject": 8, "publish": 4, "deliver": 4}),
+		nt: func(w *world) bool {
+			return w.stats["views_checked"] >= 3 && w.stats["block_accepted"]+w.stats["published"] >= 2 && w.stats["inject_foreign_admitted"]+w.stats["inject_user_admitted"] >= 1
+		},
+		ntRule: "views were compared at least three times in a history with at least two accepted blocks (addresses that received and spent) and a pending transaction; after every view action: per-address unspents, address count, history record of every output ever created (incl. spending block and transaction), confirmed transactions by hash and per address, transaction count, confirmed/predicted balances, block range queries; the rebuild action erases the index/history progress markers, restarts and compares everything again"}, 30, 1200)
+}
+
+func TestC03_CoinHours(t *testing.T) {
+	ledgerTest(t, focus{prop: "C03", weights: weights(map[string]int{"inject": 8, "publish": 4, "craft": 4}),
+		nt:     func(w *world) bool { return w.stats["hours_checked_txns"] >= 2 && w.stats["hours_with_accrual"] >= 1 },
+		ntRule: "at least two transactions were accepted into blocks and checked against the exact accrued input hours (math/big, at the previous block's time), at least one of them with inputs that earned hours since their creation"}, 40, 1500)
+}
+
+// TestC03_Accrual: UxOut.CoinHours equals the exact formula and never decreases with time.
+func TestC03_Accrual(t *testing.T) {
+	r := ev.Get("C03")
+	hx.Check(t, "C03", 8000, 500000, func(t *rapid.T) {
+		coins := rapid.OneOf(rapid.Uint64Range(0, 1e14), rapid.Uint64()).Draw(t, "coins")
+		hours := rapid.OneOf(rapid.Uint64Range(0, 1e12), rapid.Uint64()).Draw(t, "hours")
+		t0 := rapid.Uint64Range(0, 1<<34).Draw(t, "t0")
+		d1 := rapid.OneOf(rapid.Uint64Range(0, 1<<34), rapid.Uint64Range(0, 1<<62)).Draw(t, "d1")
+		d2 := rapid.OneOf(rapid.Uint64Range(0, 1<<34), rapid.Uint64Range(0, 1<<62)).Draw(t, "d2")
+		ux := coin.UxOut{Head: coin.UxHead{Time: t0}, Body: coin.UxBody{Coins: coins, Hours: hours}}
+		t1 := t0 + d1
+		t2 := t1 + d2
+		v1, e1 := ux.CoinHours(t1)
+		v2, e2 := ux.CoinHours(t2)
+		w1, c1 := rules.Accrued(ux, t1)
+		w2, c2 := rules.Accrued(ux, t2)
+		if (c1 == rules.AccrueOK) != (e1 == nil) || (c2 == rules.AccrueOK) != (e2 == nil) {
+			t.Fatalf("CoinHours(coins=%d hours=%d dt=%d/%d): errors %v %v, reference classes %s %s", coins, hours, d1, d1+d2, e1, e2, c1, c2)
+		}
+		if e1 == nil && bu(v1).Cmp(w1) != 0 || e2 == nil && bu(v2).Cmp(w2) != 0 {
+			t.Fatalf("CoinHours(coins=%d hours=%d): got %d,%d want %s,%s", coins, hours, v1, v2, w1, w2)
+		}
+		if e1 == nil && e2 == nil && v2 < v1 {
+			t.Fatalf("accrued hours decreased: %d at t+%d, %d at t+%d", v1, d1, v2, d1+d2)
+		}
+		if e1 != nil && e2 == nil {
+			t.Fatalf("overflow at t+%d but none later at t+%d", d1, d1+d2)
+		}
+		r.CaseS(d1 > 0 && coins >= 1000000, fmt.Sprintf("acc/%d/%d/%d/%d/%d", coins, hours, t0, d1, d2))
+	})
 }
